@@ -35,7 +35,8 @@ def instances(tier):
                         srcs=["lib/src/msa_op.c", "lib/src/alphabet.c"], models=["models/vin.c", "models/msg.c", "models/msa_alloc_model.c", "models/ctype.c", "models/log_stub.c", "models/snprintf_model.c"],
                         native_srcs=["lib/src/tldevel.c", "lib/src/msa_alloc.c"], gi_args=["--replace-calls", "detect_alphabet:vk_detect_alphabet"],
                         unwind=max(2 * (nd + ns) + 3, 8), unwind_pat=[("alloc_msa", r"i < 128", 129), ("main", r"c < 128", 129), ("merge_msa", r"i < 128", 129), ("alloc_msa_seq", r"VK_SEQ_CAP", 7), ("aln_unknown_warning_message_gaps_but_len_diff", r"i < 128", 129)],
-                        nb=(nd + ns) * 9 + 8, ni=3, timeout=300, mem_gb=6, funcs=["merge_msa", "detect_aligned", "set_sip_nsip", "free_msa_seq"],
+                        nb=(nd + ns) * 9 + 8, ni=3, timeout=300, mem_gb=6, funcs=["merge_msa", "detect_aligned", "set_sip_nsip", "free_msa_seq", "kalign_free_msa"],
+                        flags=["--memory-leak-check"], leak_check=True,
                         bound="%d + %d records (lengths 0..3), symbolic contents, kinds and statuses" % (nd, ns), desc="records of several inputs are concatenated in order"))
     # O1: reader post-conditions (only letters are stored, everything else is at most a gap count) - shared with C05
     from vk.props.C05 import read_inst
